@@ -1,0 +1,67 @@
+//go:build verif
+
+// Contracts for tcp_server.go and errors.go (round 5, area G; C15, C09), checked by /verif/cmd/nsqvc. Comment-only file.
+// Ghost records of the library calls (Accept, WaitGroup.Add/Done/Wait, errors.Is, Temporary, TCPHandler.Handle): .trusted/r5G.spec.
+
+package protocol
+
+// TCPServer: the accept loop shared by nsqd and nsqlookupd (C15 "one goroutine per connection", C09 / C15 "stays up").
+//   r5GRetry(e): e is a network error (*net.OpError: what Accept returns for a failed accept(2)) that says it is temporary.
+//   - a temporary accept error never ends the loop (it is neither returned nor taken for a closed listener): loop exit clause + [error-only-..];
+//   - the loop is left without an error only when Accept reported the closed listener, and then the function waits for the handlers
+//     before it returns nil; any other accept error is returned (the daemon exits through Main);
+//   - every accepted connection gets a goroutine of its own, counted in the wait group BEFORE it is started (Add precedes go).
+//@ pred r5GRetry(e error) := dyntype(e) == typetag("*net.OpError") && r5GTemporary(e)
+//@ func TCPServer(listener net.Listener, handler TCPHandler, logf lg.AppLogFunc) error
+//@   props C15 C09
+//@   requires listener != nil && handler != nil
+//@   ensures[error-only-for-a-fatal-accept-error] result != nil ==> r5GLastAcceptErr != nil && !r5GRetry(r5GLastAcceptErr) && !r5GErrIs(r5GLastAcceptErr, net.ErrClosed)
+//@   ensures[nil-only-for-a-closed-listener] result == nil ==> r5GLastAcceptErr != nil && !r5GRetry(r5GLastAcceptErr) && r5GErrIs(r5GLastAcceptErr, net.ErrClosed)
+//@   ensures[nil-only-after-waiting-for-every-handler] result == nil ==> r5GWgWaits == old(r5GWgWaits) + 1 && r5GWaitSawSpawns == r5GSpawns
+//@   ensures[error-returned-at-once] result != nil ==> r5GWgWaits == old(r5GWgWaits)
+//@   ensures[one-goroutine-per-accepted-connection] r5GSpawns - old(r5GSpawns) == r5GAccepted - old(r5GAccepted) && r5GWgAdds - old(r5GWgAdds) == r5GSpawns - old(r5GSpawns)
+//@   ensures[accepts-on-the-listener] r5GAcceptCalls > old(r5GAcceptCalls) && r5GAcceptOn == listener
+//@   loop 0
+//@     invariant[one-goroutine-per-connection] r5GSpawns - old(r5GSpawns) == r5GAccepted - old(r5GAccepted)
+//@     invariant[counted-before-started] r5GWgAdds - old(r5GWgAdds) == r5GSpawns - old(r5GSpawns) && (r5GSpawns > old(r5GSpawns) ==> r5GSpawnSawAdds == r5GWgAdds)
+//@     invariant[not-waited-yet] r5GWgWaits == old(r5GWgWaits)
+//@     invariant[this-listener] listener == old(listener) && (r5GAcceptCalls > old(r5GAcceptCalls) ==> r5GAcceptOn == listener) && r5GAcceptCalls >= old(r5GAcceptCalls)
+//     (both ways out of the loop - the break for a closed listener and the error return - are edges that leave it)
+//@     exit[never-left-on-a-connection-or-a-temporary-error] r5GAcceptCalls > old(r5GAcceptCalls) && r5GLastAcceptErr != nil && !r5GRetry(r5GLastAcceptErr)
+
+// The goroutine of one connection: the handler is called once, with the connection this goroutine was started for, and the wait
+// group slot is given back after the handler returned (Done after Handle, on the server's wait group).
+//@ func TCPServer$1()
+//@   props C15 C09
+//@   requires handler != nil
+//@   onspawn r5GSpawns := r5GSpawns + 1
+//@   onspawn r5GSpawnSawAdds := r5GWgAdds
+//@   ensures[handles-the-accepted-connection] r5GHandleCalls == old(r5GHandleCalls) + 1 && r5GHandledConn == old(clientConn) && r5GHandledBy == old(handler)
+//@   ensures[done-once-after-the-handler-returned] r5GWgDones == old(r5GWgDones) + 1 && r5GDoneSawHandles == r5GHandleCalls
+
+// errors.go: the text a peer receives for a protocol error is the machine readable code, one space, the description
+// (IOLoop of nsqd / nsqlookupd sends err.Error()); Parent gives back the cause the error was built with (logged only).
+//@ func (e *ClientErr) Error() string
+//@   props C09 C15
+//@   requires e != nil
+//@   ensures[code-space-description] result == e.Code + " " + e.Desc
+//@   modifies
+//@   nochan
+//@ func (e *ClientErr) Parent() error
+//@   props C09 C15
+//@   requires e != nil
+//@   ensures[the-cause] result == e.ParentErr
+//@   modifies
+//@   nochan
+//@ func (e *FatalClientErr) Error() string
+//@   props C09 C15
+//@   requires e != nil
+//@   ensures[code-space-description] result == e.Code + " " + e.Desc
+//@   modifies
+//@   nochan
+//@ func (e *FatalClientErr) Parent() error
+//@   props C09 C15
+//@   requires e != nil
+//@   ensures[the-cause] result == e.ParentErr
+//@   modifies
+//@   nochan
